@@ -108,7 +108,7 @@ func Families(tier string) []Family {
 	// scalar-n: int / float, mandatory and optional value (C01)
 	{
 		f := Family{Name: "scalar-n"}
-		toks := Ts("--i", "--i=1", "--i=-1", "--i=1x", "--io", "--io=2", "--f", "--f=1.5", "--f=x", "--fo", "1", "-1", "1x", "1.5", "--b", "--")
+		toks := Ts("--i", "--i=1", "--i=-1", "--i=1x", "--i=1..3", "--io", "--io=2", "--f", "--f=1.5", "--f=x", "--fo", "1", "-1", "1x", "1.5", "1..3", "--b", "--")
 		for mode := 0; mode < 3; mode++ {
 			c := Cfg{Mode: mode}
 			c.Nodes = []NodeCfg{rootNode(0, false)}
@@ -148,7 +148,7 @@ func Families(tier string) []Family {
 	// term: `--` at every position after every context (C04, C09)
 	{
 		f := Family{Name: "term"}
-		toks := Ts("--", "a", "--b", "--s", "--s=v", "--l", "--so", "cmd", "--c", "--u")
+		toks := Ts("--", "a", "--b", "--s", "--s=v", "--l", "--l=v", "--so", "cmd", "--c", "--u")
 		for _, um := range []int{0, 2} {
 			for _, ro := range []bool{false, true} {
 				for mode := 0; mode < 3; mode++ {
@@ -192,6 +192,19 @@ func Families(tier string) []Family {
 				o.UseVar = mode == 0
 				c.Opts = []OptCfg{o, opt("bool", "other", 1)}
 				f.Defs = append(f.Defs, Def{Cfg: c, Tokens: toks, L: lim(tier, 3, 4)})
+			}
+		}
+		// Called / CalledAs through the environment: only true/false (any case) count for a bool
+		for _, ev := range []string{"1", "t", "True", "0", "FALSE", "yes"} {
+			for _, defb := range []bool{false, true} {
+				c := Cfg{Mode: 0}
+				c.Nodes = []NodeCfg{rootNode(0, false)}
+				o := opt("bool", "opt", 1, "o", "alt")
+				o.DefB = defb
+				o.Env = T("VERIF_ENV_AL")
+				c.Env = []EnvCfg{{Name: T("VERIF_ENV_AL"), Val: T(ev)}}
+				c.Opts = []OptCfg{o, opt("bool", "other", 1)}
+				f.Defs = append(f.Defs, Def{Cfg: c, Tokens: Ts("--opt", "--alt", "--other", "x"), L: 2})
 			}
 		}
 		fams = append(fams, f)
